@@ -426,6 +426,24 @@ impl Array4 {
     }
 }
 
+#[cfg(feature = "verif-hooks")]
+impl Array4 {
+    pub(super) fn verif_fill_state(&self, st: &mut crate::verif::HllState) {
+        st.registers = (0..self.num_registers() as u32).map(|s| self.get(s)).collect();
+        st.cur_min = self.cur_min;
+        st.num_at_cur_min = self.num_at_cur_min;
+        st.aux = self
+            .aux_map
+            .as_ref()
+            .map(|m| m.iter().collect())
+            .unwrap_or_default();
+        st.hip_accum = self.estimator.hip_accum();
+        st.kxq0 = self.estimator.kxq0();
+        st.kxq1 = self.estimator.kxq1();
+        st.out_of_order = self.estimator.is_out_of_order();
+    }
+}
+
 #[cfg(test)]
 mod tests {
     use super::*;
